@@ -98,10 +98,26 @@ class HostKeys(MutableMapping):
                 if entry is not None:
                     # iterate over a copy: names are removed from the entry
                     for h in list(entry.hostnames):
-                        if self.check(h, entry.key):
+                        if self._holds(h, entry.key):
                             entry.hostnames.remove(h)
                     if len(entry.hostnames):
                         self._entries.append(entry)
+
+    def _holds(self, hostname, key):
+        """
+        Whether some entry already associates exactly ``key`` with
+        ``hostname`` -- including entries `lookup` does not report because an
+        earlier entry of the same key type takes precedence.
+        """
+        for e in self._entries:
+            if (
+                e.key is not None
+                and e.key.get_name() == key.get_name()
+                and e.key.asbytes() == key.asbytes()
+                and self._hostname_matches(hostname, e)
+            ):
+                return True
+        return False
 
     def save(self, filename):
         """
